@@ -123,6 +123,9 @@ func (fr *frame) backEdge(from, hdr *ssa.BasicBlock, cond string, st *state) {
 	for _, c := range li.spec.Steps {
 		t, err := env.boolExpr(c.Text)
 		if err != nil {
+			if strings.Contains(err.Error(), "\"ret_") {
+				continue // the call named by ret_<callee> does not lie on the way to this back edge: the clause says nothing here
+			}
 			e.errf("%s:%d: %v", c.File, c.Line, err)
 			continue
 		}
